@@ -12,7 +12,8 @@ cp -r /repo/placement "$SCR/placement"
 find "$SCR" -name __pycache__ -type d -prune -exec rm -rf {} +
 ( cd "$SCR" && patch -p1 -s < "$PATCH" )
 set +e
-PV_REPO="$SCR" "$@"
+mkdir -p /dev/shm/pv-mutant-out
+PV_OUT_DIR=/dev/shm/pv-mutant-out PV_REPO="$SCR" "$@"
 RC=$?
 echo "mutant-run rc=$RC"
 exit $RC
